@@ -21,7 +21,7 @@ const rule = "histories of 2-5 migration files after a fixed init file, each fil
 
 var tables = []string{"base", "other", "t3", "t4"}
 var cols = []string{"a", "b", "c", "d", "g"}
-var kinds = []string{"add-table", "drop-table", "add-column", "drop-column", "add-virtual", "drop-virtual", "add-index", "drop-index", "rebuild-omit", "rebuild-keep", "temp-table", "temp-column", "drop-column", "add-column", "drop-readd-column", "drop-recreate-table"}
+var kinds = []string{"add-table", "drop-table", "add-column", "drop-column", "add-virtual", "drop-virtual", "add-index", "drop-index", "rebuild-omit", "rebuild-keep", "temp-table", "temp-column", "drop-column", "add-column", "drop-readd-column", "drop-recreate-table", "rebuild-omit-virtual-and-later", "rebuild-omit-virtual-and-later", "add-column"}
 
 func handOnly(k string) bool {
 	return k == "rebuild-omit" || k == "rebuild-keep" || k == "temp-table" || k == "temp-column" || k == "drop-readd-column" || k == "drop-recreate-table"
